@@ -149,6 +149,14 @@ def oracle(case):
     pieces = split(s)
     if not isinstance(pieces, list) or not all(isinstance(p, str) for p in pieces):
         return "result is not a list of str: %r" % (pieces,)
+    # the result belongs to the caller: editing it must not change what a later call for the same text returns
+    mine = list(pieces)
+    pieces.append("edited by the caller")
+    pieces.reverse()
+    later = split(s)
+    if later != mine:
+        return "a second call returns %r after the first result %r was edited by the caller (shared result object)" % (later, mine)
+    pieces = mine
     c = U.conservation(s, pieces)
     if c:
         return "conservation: %s (pieces %r)" % (c, pieces)
